@@ -34,6 +34,13 @@ pub struct Step {
     /// make this request fail: 1 = destination I/O error at call k, 2 = unreadable app memory region
     #[serde(default)]
     pub fail: Option<(u8, u8)>,
+    /// change the target before this dump: make the last page of the application mapping
+    /// inaccessible (true) or accessible again (false)
+    #[serde(default)]
+    pub protect: Option<bool>,
+    /// leave the writer exactly as the previous request left it (same configuration as the previous step)
+    #[serde(default)]
+    pub same_config: bool,
 }
 
 #[derive(Debug, Clone, PartialEq, Eq, Hash, Serialize, Deserialize)]
@@ -103,6 +110,21 @@ pub fn check(c: &Case) -> Verdict {
     // all remaining threads blocked again (parked in pause, main in read): a thread that is still
     // on its way back into its system call shows different registers
     let mut alive_spec = TSpec { threads: spec.threads.clone(), ..Default::default() };
+    // a step with `same_config` repeats the configuration of the step before it (its own target changes and faults stay)
+    let mut eff: Vec<Step> = vec![];
+    for s in &c.steps {
+        let mut e = s.clone();
+        if s.same_config {
+            if let Some(p) = eff.last() {
+                e = Step { cue: s.cue, protect: s.protect, fail: s.fail.filter(|f| f.0 == 1), same_config: true, ..p.clone() };
+                if let Some((2, _)) = p.fail {
+                    e.fail = p.fail;
+                }
+            }
+        }
+        eff.push(e);
+    }
+    let c = &Case { steps: eff, ..c.clone() };
     let Some(first) = c.steps.first() else { return Verdict::pass() };
     let mut w = make_writer(pid, &opts_of(first));
     let mut classes = vec![];
@@ -124,6 +146,15 @@ pub fn check(c: &Case) -> Verdict {
                 }
             }
         }
+        if let Some(p) = s.protect {
+            if t.cmd(&format!("protect {:x} 1000 {}", appmap + 0x3000, if p { 0 } else { 3 })) {
+                changed = true;
+                classes.push(if p { "app-page-made-inaccessible" } else { "app-page-made-accessible" }.to_string());
+            }
+            if !t.wait_settled(&alive_spec) {
+                return Verdict::Inconclusive("main thread did not return to its command loop".into());
+            }
+        }
         let o = opts_of(s);
         if k > 0 {
             // reconfigure the reused writer through its public fields
@@ -131,12 +162,24 @@ pub fn check(c: &Case) -> Verdict {
             if o.blamed != prev.blamed || o.crash != prev.crash || o.app_memory != prev.app_memory || o.principal != prev.principal || o.sanitize != prev.sanitize || o.skip_unreferenced != prev.skip_unreferenced {
                 changed = true;
             }
-            w.blamed_thread = o.blamed;
-            w.crash_context = o.crash.as_ref().map(|c| c.build(pid));
-            w.app_memory = o.app_memory.iter().map(|(p, l)| AppMemory { ptr: *p as usize, length: *l as usize }).collect();
-            w.principal_mapping_address = o.principal.map(|p| p as usize);
+            // only what the caller changes is assigned; everything else stays as the previous request left it
+            if o.blamed != prev.blamed {
+                w.blamed_thread = o.blamed;
+            }
+            if o.crash != prev.crash {
+                w.crash_context = o.crash.as_ref().map(|c| c.build(pid));
+            }
+            if o.app_memory != prev.app_memory {
+                w.app_memory = o.app_memory.iter().map(|(p, l)| AppMemory { ptr: *p as usize, length: *l as usize }).collect();
+            }
+            if o.principal != prev.principal {
+                w.principal_mapping_address = o.principal.map(|p| p as usize);
+            }
             w.sanitize_stack = o.sanitize;
             w.skip_stacks_if_mapping_unreferenced = o.skip_unreferenced;
+            if s.same_config {
+                classes.push("writer-untouched-between-requests".to_string());
+            }
         }
         if !t.wait_settled(&alive_spec) {
             return Verdict::Inconclusive("target did not settle between dumps".into());
@@ -226,8 +269,9 @@ fn step_strategy() -> impl Strategy<Value = Step> {
         proptest::option::weighted(0.3, any::<u16>()),
         proptest::bool::weighted(0.2),
         proptest::option::weighted(0.3, (1u8..3, any::<u8>())),
+        (proptest::option::weighted(0.35, any::<bool>()), proptest::bool::weighted(0.4)),
     )
-        .prop_map(|(blamed, crash, crash_rip_in_map, app, skip, principal, sanitize, cue, blamed_foreign, fail)| Step { blamed, crash, crash_rip_in_map, app, skip, principal, sanitize, cue, blamed_foreign, fail })
+        .prop_map(|(blamed, crash, crash_rip_in_map, app, skip, principal, sanitize, cue, blamed_foreign, fail, (protect, same_config))| Step { blamed, crash, crash_rip_in_map, app, skip, principal, sanitize, cue, blamed_foreign, fail, protect, same_config })
 }
 
 pub fn run(ctx: &mut LaneCtx) {
@@ -236,7 +280,7 @@ pub fn run(ctx: &mut LaneCtx) {
         SubSpec {
             name: "reuse-history",
             cases: (480, 15_000),
-            rule: "one writer, 2..5 dump() calls, some of which are made to fail (destination I/O error at a generated call, unreadable app memory); between calls the public configuration (blamed thread, crash context on/off, app memory, principal address, skip, sanitize) may change and an exiter thread may be cued; after each call a freshly configured writer dumps the same blocked target; oracle = strict structure of both + normal-form equality; non-trivial = >= 2 calls with a memory-producing option or a change between calls; distinct = hash of case",
+            rule: "one writer, 2..5 dump() calls, some of which are made to fail (destination I/O error at a generated call, unreadable app memory); between calls the public configuration (blamed thread, crash context on/off, app memory, principal address, skip, sanitize) may change or the writer is left untouched, and the target may change (an exiter thread is cued; the last page of the application mapping - into which registered regions may run - becomes inaccessible or accessible again); after each call a freshly configured writer dumps the same blocked target; oracle = strict structure of both + normal-form equality; non-trivial = >= 2 calls with a memory-producing option or a change between calls; distinct = hash of case",
             strategy: (0u8..6, 0u8..3, proptest::option::weighted(0.3, 0u32..20_000), proptest::collection::vec(step_strategy(), 2..6)).prop_map(|(parked, exiters, limit, steps)| Case { parked, exiters, limit, steps }).boxed(),
             max_shrink_iters: 100,
             log_current: true,
